@@ -267,10 +267,8 @@ def validate (O : Oracles) : FieldDecl → PyVal → R PyVal
         vConstruct c (fields.map (·.1)) kw (validateFields O c defaults kw fields))
     else vClassRef c v
   | .anyOf fs, v => validateAny O fs v
-  -- OneOf / AllOf try their options on a scratch structure; then the matched option (OneOf) / the first option
-  -- (AllOf) stores its own validated value on the instance (since /repo fix C19-oneof-allof-store-copy)
-  | .oneOf fs, v => if countOk O fs v == 1 then validateAny O fs v else .error .valueErr
-  | .allOf fs, v => bindE (validateEach O fs v) fun _ => validateFirst O fs v
+  | .oneOf fs, v => if countOk O fs v == 1 then .ok v else .error .valueErr
+  | .allOf fs, v => bindE (validateEach O fs v) fun _ => .ok v
   | .notF fs, v => if countOk O fs v == 0 then .ok v else .error .valueErr
   | .noneF, v => vNone v
   | .anything, v => .ok v
@@ -296,12 +294,6 @@ termination_by structural fs _ => fs
 def countOk (O : Oracles) : List FieldDecl → PyVal → Nat
   | [], _ => 0
   | f :: fs, v => (match validate O f v with | .ok _ => 1 | .error _ => 0) + countOk O fs v
-termination_by structural fs _ => fs
-
-/-- what `AllOf` stores: the value its first option stores (the input itself when there is no option) -/
-def validateFirst (O : Oracles) : List FieldDecl → PyVal → R PyVal
-  | [], v => .ok v
-  | f :: _, v => validate O f v
 termination_by structural fs _ => fs
 
 /-- `AllOf`: every option must accept; the first failure propagates -/
